@@ -47,6 +47,7 @@ SUBJECTS = {
     "F10": "close a stream that answered by itself",
     "F48": "release a reader parked on a pipelined request when the connection is closed",
     "F49": "a prior-knowledge HTTP/2 connection is idle until it opens a stream",
+    "F21": "replies made by the HTTP/2 reader do not wait for room",
     "F34": "a failed lifespan startup is only reported once",
     "F35": "a lifespan failure the application swallowed",
     "F36": "worker_serve returns when the lifespan app is still waiting",
